@@ -14,7 +14,7 @@ RULE = ('random interleavings (8-30 operations quick, 12-56 thorough, 1-4 instan
         '(treadmill.monitor.Monitor.run with MonitorContainerCleanup) as a restartable actor that re-reads the '
         'tombstone directory at every start, s6 control commands (svscan/svc) failing with CalledProcessError at '
         'scripted points in the monitor actions and in AppCfgMgr._refresh_supervisor (= the manager dies and is '
-        'restarted), cleanup completing (real Cleanup.invoke) at arbitrary later points - or interrupted half-way (the removal fails after some files, the records that the container ended survive; the job is retried later) -, a cache entry unlinked by the event manager between the listing of the cache and the look at the entry inside a synchronisation (the manager dies on the vanished file and is restarted), an instance placed right after the cache became ready whose own created event arrives only after its container ended and was handed to cleanup, manager restarts and node '
+        'restarted), cleanup completing (real Cleanup.invoke) at arbitrary later points - or interrupted half-way (the removal fails after some files, the records that the container ended survive; the job is retried later) -, a cache entry unlinked by the event manager between the listing of the cache and the look at the entry inside a synchronisation (the manager dies on the vanished file and is restarted), the node monitor getting the CPU between two file-system looks of one synchronisation (the container of a cached instance ended while the manager was inactive; right before the k-th os.path.exists / islink / readlink of AppCfgMgr._synchronize the real Monitor.run executes its tombstone - the atomic rename running/<instance> -> cleanup/<instance>; the ended container is to be in cleanup and nowhere else afterwards), an instance placed right after the cache became ready whose own created event arrives only after its container ended and was handed to cleanup, manager restarts and node '
         'starts; the real appcfg.configure runs '
         'for every container. After every handler call and every actor step the listing of running/, cleanup/, '
         'apps/ (+ exitinfo|aborted|oom flags) and cache/ is evaluated: I1 <= 1 link per container, I3 finished or '
@@ -49,6 +49,9 @@ ASSUMPTIONS = [
     'container ids derive from the real st_ctime/st_ino of the cache file, so the set order inside _synchronize '
     'varies with PYTHONHASHSEED and between runs; both orders are reached statistically, a replay may take the '
     'other order',
+    'the `os` global of treadmill.appcfgmgr is a forwarding proxy: every call reaches the real os; exists / lexists / '
+    'islink / isdir / isfile / readlink / stat / lstat / listdir made inside _synchronize are counted and, when armed, the '
+    'node monitor (real Monitor.run until idle) runs right before the k-th of them',
     'observers (call-through wrappers) on AppCfgMgr handlers and fs.symlink_safe/fs.replace name the code path in '
     'mechanism keys only; verdicts come from the directory listing',
 ]
@@ -64,6 +67,8 @@ REQUIRED_REACH = {'*': [
     'i1_container_evaluations', 'i2_new_generation_evaluations', 'i2_existing_generation_evaluations',
     'i2_idle_container_evaluations', 'i2_finished_generation_evaluations', 'i2_stale_container_evaluations',
     'i2_unconfigurable_evaluations', 'i4_unchanged_running_evaluations', 'i5_deleted_evaluations',
+    'midsync_container_handed_to_cleanup_inside_synchronisation',
+    'midsync_handover_right_before_a_look_at_its_running_link',
 ]}
 
 _MAX_SHRINKS = 3
